@@ -333,6 +333,23 @@ def judge(res: Result, sc: Dict[str, Any], out: Dict[str, Any], viol, dropped: s
         # advertised version of the service (not necessarily all from the same one)
         ok = bool(f["addrs"]) and any((f["server"] or "").lower() == s.server.lower() and f["port"] == s.port for _, s in vers) \
             and (any(f["text"] == s.text for _, s in vers) or (f["text"] == b"" and txt_may_have_expired(lk, vers))) and any(f["addrs"] <= (set(s.addrs4) | set(s.addrs6)) for _, s in vers)
+        # ... but not for long: two seconds after the announcements of the latest version (three in 450 ms, each with the
+        # cache-flush bit) every cache on the link holds it as the most recently received copy, whatever older copies are
+        # still around, and a lookup started after that must report it
+        # (judged when the latest copies are certainly still alive in that cache, or when the previous version had been
+        #  announced long enough before the update for the cache-flush bit to retire its copies: a record received less than a
+        #  second before the flush is spared by RFC 6762 10.2 and then lives for its own TTL - after an update 50 ms after
+        #  registration with a *shorter* TTL the old SRV legitimately outlives the new one)
+        last_t, last_s = vers[-1]
+        alive = lk["start"] < last_t + 1000.0 * min(last_s.host_ttl, last_s.other_ttl) - 500.0
+        flushed = len(vers) < 2 or last_t - vers[-2][0] >= 2500.0
+        if ok and lk["start"] >= last_t + 2500.0 and (alive or flushed) and not (f["text"] == b"" and txt_may_have_expired(lk, vers)):
+            res.mon("c07.lookup_latest")
+            if (f["port"], f["text"]) != (last_s.port, last_s.text):
+                viol("c07.lookup", "lookup_superseded_data", "lookup for %s started %.1f s after the latest version was published resolved port %r / TXT %r, "
+                     "published then: port %r / TXT %r (all versions: %r); dropped=%s (%s)" % (
+                         lk["name"], (lk["start"] - last_t) / 1000.0, f["port"], f["text"], last_s.port, last_s.text, [(round(t), s.port, s.text) for t, s in vers], dropped, scope),
+                     dropped=dropped)
         if not ok:
             viol("c07.lookup", "lookup_wrong_data", "lookup for %s resolved %r, advertised versions %r" % (lk["name"], {k: (sorted(v) if isinstance(v, set) else v) for k, v in f.items()},
                                                                                                           [(s.server, s.port, s.text, sorted(s.addrs4 + s.addrs6)) for _, s in vers]), dropped=dropped)
